@@ -334,6 +334,11 @@ func (e *Engine) fewValues(t *Term, max int) bool {
 	if t.konst() {
 		return true
 	}
+	// cheap syntactic filter first: a term over more than 32 bits of variables
+	// (e.g. a free 64-bit integer) is not worth probing
+	if termVarBits(t, 33) > 32 {
+		return false
+	}
 	if idx := len(e.taken); idx < len(e.prefix) {
 		return e.prefix[idx].IsVal
 	}
@@ -349,6 +354,32 @@ func (e *Engine) fewValues(t *Term, max int) bool {
 		excl = append(excl, tNot(tEq(t, bvConst(m.eval(t), t.w))))
 	}
 	return false
+}
+
+// termVarBits sums the widths of the distinct variables under t (stops at limit).
+func termVarBits(t *Term, limit int) int {
+	seen := map[int]bool{}
+	bits := 0
+	var walk func(x *Term)
+	walk = func(x *Term) {
+		if bits >= limit || seen[x.id] {
+			return
+		}
+		seen[x.id] = true
+		if x.op == "var" {
+			w := x.w
+			if w == 0 {
+				w = 1
+			}
+			bits += w
+			return
+		}
+		for _, a := range x.args {
+			walk(a)
+		}
+	}
+	walk(t)
+	return bits
 }
 
 func (e *Engine) concretize(t *Term) uint64 {
